@@ -165,6 +165,23 @@ func c07Inputs(c *runCtx, n int) []string {
 		"SELECT a FROM t LIMIT 5, 10", "SELECT a FROM t LIMIT 10 OFFSET 5;", "SELECT `a` FROM `t`", ";; SELECT 1", "SELECT 1;;", "; SELECT 1 ; ; SELECT 2 ;", "SELECT 1 SELECT 2", "SELECT a FROM t; garbage here; SELECT b FROM u",
 		"/* only a comment */", "-- only a comment", "/* a */ /* b */", "/* a */ -- b", "--\n--\n", "/* header */ SELECT FROM /* trailer */", "/* h */ SELECT 1 /* t */", "/* h */ SELECT 'x /* t */",
 		"SELECT a FROM t WHERE; SELECT 1", "SHOW TABLES; DESCRIBE t; EXPLAIN SELECT 1; REPLACE INTO t (a) VALUES (1)", "SELECT 1; SELECT FROM; SELECT 'unterminated")
+	// every word the grammar knows in place of every token of a few statements (accepted or not afterwards): what a word
+	// means in a position is the same whichever entry point reads it
+	{
+		words := parserWords()
+		bases := []string{"SELECT DISTINCT a AS x FROM t WHERE b = 1 GROUP BY a HAVING a > 2 ORDER BY a DESC LIMIT 5 OFFSET 3", "INSERT INTO t (a) VALUES (1) RETURNING a",
+			"SELECT a FROM t LEFT JOIN u ON t.i = u.i UNION ALL SELECT b FROM v FETCH FIRST 2 ROWS ONLY", "UPDATE t SET a = 1 WHERE b IN (1, 2)", "CREATE TABLE t (a INT NOT NULL DEFAULT 1)",
+			"SELECT f(a) OVER (PARTITION BY b ORDER BY c ROWS BETWEEN 1 PRECEDING AND CURRENT ROW) FROM t FOR UPDATE"}
+		for _, b := range bases {
+			pieces := strings.Fields(strings.NewReplacer("(", " ( ", ")", " ) ", ",", " , ").Replace(b))
+			for j := 1; j < len(pieces); j++ {
+				for _, w := range words {
+					mod := append(append(append([]string{}, pieces[:j]...), w), pieces[j+1:]...)
+					inputs = append(inputs, strings.Join(mod, " "))
+				}
+			}
+		}
+	}
 	g := newSQLGen(c.rng.Fork())
 	for i := 0; i < n; i++ {
 		k := 1 + c.rng.Intn(3)
